@@ -188,6 +188,11 @@ func runOne(ld *gosym.Loaded, pkg *ssa.Package, fn *ssa.Function, cfg gosym.Conf
 	res.Panics = e.PanicSites
 	res.Overflow = e.Overflow
 	res.Merged = e.Merged
+	if os.Getenv("GOSYM_FORKS") != "" {
+		for k, v := range e.ForkSites {
+			fmt.Fprintf(os.Stderr, "FORK %d %s\n", v, k)
+		}
+	}
 	res.Bounds = e.Bounds
 	res.FeasUnknown = e.FeasUnknown
 	res.Solver = e.SolverStats()
